@@ -348,6 +348,9 @@ func (s *Spec) termText(t *Term) string {
 
 func (s *Spec) ParserText() string {
 	var sb strings.Builder
+	if len(s.Rules) == 0 {
+		return "" // a lexer-only specification has no @parser section
+	}
 	sb.WriteString("@parser\n\n")
 	for i, r := range s.Rules {
 		head := r.Name + " = "
